@@ -36,6 +36,7 @@ func runC04(c *Ctx) {
 		"every step constant given to scheduleTimeout is handled by handleTimeout, and each handled step moves the state machine on (new height -> new round, propose -> prevote, prevote wait -> precommit, precommit wait -> precommit and the next round)",
 		"every step function that waits schedules its own timeout once its entry guard passed; a committed height schedules the next height; the stale-timeout filters drop only strictly older timeouts",
 		"round skipping, rotation of the proposer by the number of skipped rounds, and fetching the committed block when only the commit is known are present with the right operands",
+		"the vote rebuilt from a commit is the vote that was signed, for the block and for nil (group shared with C11, C02): the last commit of a height with a correct validator's nil precommit verifies at the next height; the ticker drops a schedule request only when it is stale in (height, round, step) order",
 		"no blocking channel operation under the consensus state lock (sends are non-blocking or go to the ticker's buffered channel, tabled); every lock in the consensus packages is released on every path",
 	}
 	c.NotDec = []string{"termination within a bounded number of rounds under partial synchrony (schedule-quantified)", "that a fresh network commits its first block", "absence of livelock; timing", "progress when the node is configured to wait for transactions without an empty-block interval (advisory)"}
